@@ -88,12 +88,16 @@ def ty_info(ty):
 class BitEval:
     """Evaluate a pure HIR expression over Bits, with an environment for locals; inlines workspace fns."""
 
-    def __init__(self, prog, depth=4):
+    def __init__(self, prog, depth=4, input_pred=None, input_val=None):
         self.prog = prog
         self.depth = depth
+        self.input_pred = input_pred      # node -> bool: this sub-expression *is* the codec's input
+        self.input_val = input_val
 
     def ev(self, n, env):
         n = core.strip(n) if n.get("k") in ("DropTemps", "Use", "Type") else n
+        if self.input_pred is not None and self.input_pred(n):
+            return self.input_val
         k = n.get("k")
         if k in ("DropTemps", "Use", "Type"):
             return self.ev(n["e"], env)
@@ -296,11 +300,15 @@ class BitEval:
 
 
 def compose_identity(prog, enc, enc_param, dec, dec_param, width, signed, in_kind="int"):
-    """decode(encode(x)) == x for all x of the given width?  enc/dec are (expr node, lid of the input local)."""
+    """decode(encode(x)) == x for all x of the given width?  enc/dec are (expr node, lid of the input local); dec_param
+    may instead be a predicate on HIR nodes that recognises the decoder's input sub-expression (e.g. `read[index]`)."""
     x = Bits.input("x", width, signed, in_kind)
     be = BitEval(prog)
     y = be.ev(enc, {enc_param: x})
-    z = be.ev(dec, {dec_param: y})
+    if callable(dec_param):
+        z = BitEval(prog, input_pred=dec_param, input_val=y).ev(dec, {})
+    else:
+        z = be.ev(dec, {dec_param: y})
     return z.same(x), y, z
 
 
